@@ -159,11 +159,15 @@ pub fn rt() -> tokio::runtime::Runtime {
 }
 
 pub fn new_handler(origin: &Name, recs: &[Record]) -> Handler {
-    let mut mem = InMemoryZoneHandler::<TokioRuntimeProvider>::empty(origin.clone(), ZoneType::Primary, AxfrPolicy::Deny, None);
+    new_handler_as(origin, recs, ZoneType::Primary, true)
+}
+
+pub fn new_handler_as(origin: &Name, recs: &[Record], zone_type: ZoneType, allow_update: bool) -> Handler {
+    let mut mem = InMemoryZoneHandler::<TokioRuntimeProvider>::empty(origin.clone(), zone_type, AxfrPolicy::Deny, None);
     for r in recs {
         mem.upsert_mut(r.clone(), 0);
     }
-    let mut h = SqliteZoneHandler::new(mem, AxfrPolicy::Deny, true, false);
+    let mut h = SqliteZoneHandler::new(mem, AxfrPolicy::Deny, allow_update, false);
     h.set_tsig_signers(vec![signer()]);
     h
 }
@@ -332,6 +336,14 @@ pub fn catalog_message(origin: &Name, pre: &[Record], upd: &[Record], kind: &str
             let other = TSigner::new(b"ffffffffffffffffffffffffffffffff".to_vec(), TsigAlgorithm::HmacSha256, Name::from_ascii("other-key.").unwrap(), 300).ok()?;
             m.finalize(&other, NOW).ok()?;
         }
+        "badsig" => {
+            // the configured key name, another secret
+            let other = TSigner::new(b"ffffffffffffffffffffffffffffffff".to_vec(), TsigAlgorithm::HmacSha256, Name::from_ascii("update-key.").unwrap(), 300).ok()?;
+            m.finalize(&other, NOW).ok()?;
+        }
+        "expired" => {
+            m.finalize(&signer(), NOW - 100_000).ok()?;
+        }
         _ => {
             m.finalize(&signer(), NOW).ok()?;
         }
@@ -369,8 +381,13 @@ pub fn run_update_catalog(rt: &tokio::runtime::Runtime, cat: &Catalog, bytes: Ve
 
 /// a DNSSEC-enabled handler (`is_dnssec_enabled`, one Ed25519 zone signing key, NSEC chain): `update_records` then
 /// goes through `secure_zone()` (regenerate NSEC, bump the serial, re-sign) instead of `increment_soa_serial`
-pub fn new_dnssec_handler(origin: &Name, recs: &[Record]) -> Option<Handler> {
-    let mut mem = InMemoryZoneHandler::<TokioRuntimeProvider>::empty(origin.clone(), ZoneType::Primary, AxfrPolicy::Deny, Some(NxProofKind::Nsec));
+pub fn new_dnssec_handler(origin: &Name, recs: &[Record], nsec3: bool) -> Option<Handler> {
+    let nx = if nsec3 {
+        NxProofKind::Nsec3 { algorithm: hickory_proto::dnssec::Nsec3HashAlgorithm::SHA1, salt: Arc::from(vec![0xAAu8, 0xBB]), iterations: 1, opt_out: false }
+    } else {
+        NxProofKind::Nsec
+    };
+    let mut mem = InMemoryZoneHandler::<TokioRuntimeProvider>::empty(origin.clone(), ZoneType::Primary, AxfrPolicy::Deny, Some(nx));
     for r in recs {
         mem.upsert_mut(r.clone(), 0);
     }
@@ -387,7 +404,7 @@ pub fn new_dnssec_handler(origin: &Name, recs: &[Record]) -> Option<Handler> {
 /// the records the DNSSEC machinery itself maintains are not the UPDATE's business: the oracle looks at the rest
 fn without_dnssec(mut s: Snap) -> Snap {
     // (the zone's DNSKEY / NSEC3PARAM are ordinary data an UPDATE may delete; NSEC / NSEC3 / RRSIG are regenerated)
-    s.rrs.retain(|r| ![46u16, 47, 50].contains(&r.rtype));
+    s.rrs.retain(|r| ![46u16, 47, 50, 51].contains(&r.rtype));
     s
 }
 
@@ -636,6 +653,8 @@ fn as_set(z: &[RR], mask_serial_at: Option<&str>) -> BTreeSet<RR> {
 
 pub const CL_PRE_LOOKUP: &str = "prereq-uses-query-lookup";
 pub const CL_PRE_SUBSET: &str = "prereq-value-dependent-subset";
+/// DNSSEC-enabled zone with an NSEC3 chain: the second `secure_zone()` trips `debug_assert!(upserted)` in `nsec3_zone`
+pub const CL_NSEC3: &str = "nsec3-zone-update-debug-assert";
 pub const T_NULL: u16 = 10;
 pub const T_MAILB: u16 = 253;
 pub const T_MAILA: u16 = 254;
@@ -737,6 +756,13 @@ pub fn check_invariants(after: &Snap, zname: &str) -> Vec<(&'static str, String)
 }
 
 pub fn judge(origin: &Name, before: &Snap, after: &Snap, pre: &[Record], upd: &[Record], stage: &str, res: &str) -> Verdict {
+    judge_with(origin, before, after, pre, upd, stage, res, &before.rrs)
+}
+
+/// `touch_rrs`: the zone on which "did any Update RR change anything" is decided (on a DNSSEC-enabled zone: including the
+/// NSEC / NSEC3 records the server keeps there — deleting them is a change even though they come back)
+#[allow(clippy::too_many_arguments)]
+pub fn judge_with(origin: &Name, before: &Snap, after: &Snap, pre: &[Record], upd: &[Record], stage: &str, res: &str, touch_rrs: &[RR]) -> Verdict {
     let zname = name_tok(&lower_name(origin));
     let pre_m: Vec<MRR> = pre.iter().map(|r| mrr(origin, r)).collect();
     let upd_m: Vec<MRR> = upd.iter().map(|r| mrr(origin, r)).collect();
@@ -820,7 +846,7 @@ pub fn judge(origin: &Name, before: &Snap, after: &Snap, pre: &[Record], upd: &[
         }
         // "unchanged": no single Update RR changes the zone under any accepted reading of §3.4.2 (a message
         // whose RRs change the zone and undo it again may or may not bump the serial)
-        let touched = VARIANTS.iter().any(|v| ref_apply_steps(&before.rrs, &zname, &upd_m, *v).1);
+        let touched = VARIANTS.iter().any(|v| ref_apply_steps(touch_rrs, &zname, &upd_m, *v).1);
         if !changed && !touched && after.serial != before.serial && !(explicit_soa && accepted && adv) {
             fails.push((format!("zone content unchanged but the SOA serial moved ({} → {})", before.serial, after.serial), cls.into()));
         }
@@ -840,6 +866,10 @@ pub struct Hist {
     pub cat: Option<Catalog>,
     /// the history runs on a DNSSEC-enabled handler: no model side (`begind`)
     pub dnssec: bool,
+    /// … with an NSEC3 chain (`begind3`), and an update of this history has panicked
+    pub nsec3: bool,
+    pub panicked: bool,
+    pub initial: Vec<Record>,
     /// fed every message through the three public calls; `updf` compares the real `update()` with it
     pub twin: Option<Handler>,
     pub changes: u32,
@@ -871,18 +901,21 @@ pub fn exec(line: &str, hist: &mut Hist, rec: &mut Recorder) {
             cat.upsert(LowerName::new(&o), vec![h.clone() as Arc<dyn ZoneHandler>]);
             hist.cat = Some(cat);
             hist.dnssec = false;
+            hist.nsec3 = false;
+            hist.panicked = false;
+            hist.initial = rs.clone();
             hist.origin = o;
             hist.h = Some(h);
             hist.changes = 0;
             rec.stat("op.begin");
         }
-        ["begind", origin, recs @ ..] => {
+        ["begind", origin, recs @ ..] | ["begind3", origin, recs @ ..] => {
             // DNSSEC-enabled store variant: implementation vs oracle only
             let (Some(o), Some(rs)) = (parse_name(origin), recs.iter().map(|x| parse_rec(x)).collect::<Option<Vec<_>>>()) else {
                 rec.stat("skipped.unparsable-case");
                 return;
             };
-            let Some(h) = new_dnssec_handler(&o, &rs) else {
+            let Some(h) = new_dnssec_handler(&o, &rs, t[0] == "begind3") else {
                 rec.stat("skipped.dnssec-handler");
                 return;
             };
@@ -891,6 +924,8 @@ pub fn exec(line: &str, hist: &mut Hist, rec: &mut Recorder) {
             hist.twin = None;
             hist.cat = None;
             hist.dnssec = true;
+            hist.nsec3 = t[0] == "begind3";
+            hist.panicked = false;
             hist.origin = o;
             hist.h = Some(Arc::new(h));
             hist.changes = 0;
@@ -906,6 +941,29 @@ pub fn exec(line: &str, hist: &mut Hist, rec: &mut Recorder) {
                 rec.stat("skipped.unencodable-message");
                 return;
             };
+            if *kind == "noupdate" || *kind == "secondary" || *kind == "external" {
+                // a catalog of its own whose handler does not take updates at all / is not a primary
+                let zt = match *kind { "secondary" => ZoneType::Secondary, "external" => ZoneType::External, _ => ZoneType::Primary };
+                let other = Arc::new(new_handler_as(&hist.origin, &hist.initial, zt, *kind != "noupdate"));
+                let mut c2 = Catalog::new();
+                c2.upsert(LowerName::new(&hist.origin), vec![other.clone() as Arc<dyn ZoneHandler>]);
+                let Some(bytes) = catalog_message(&hist.origin, &p, &u, "ok") else { return };
+                let before = snapshot(&hist.rt, &other);
+                let res = run_update_catalog(&hist.rt, &c2, bytes);
+                let after = snapshot(&hist.rt, &other);
+                rec.stat("op.updc");
+                rec.stat(&format!("updc.{kind}.{res}"));
+                rec.impl_only += 1;
+                let idx = rec.case(line.to_string(), "~".into());
+                let expect = match *kind { "secondary" => "NOTIMP", "external" => "NOTAUTH", _ => "REFUSED" };
+                if res != expect {
+                    rec.fail(idx, format!("an UPDATE for a zone that takes none ({kind}) was answered {res}, expected {expect}"), "");
+                }
+                if before != after {
+                    rec.fail(idx, format!("an UPDATE for a zone that takes none ({kind}) changed the zone"), "");
+                }
+                return;
+            }
             let before = snapshot(&hist.rt, h);
             let res = run_update_catalog(&hist.rt, cat, bytes);
             let after = snapshot(&hist.rt, h);
@@ -951,7 +1009,7 @@ pub fn exec(line: &str, hist: &mut Hist, rec: &mut Recorder) {
                     if before != after {
                         rec.fail(idx, format!("an UPDATE that must be rejected ({kind}) changed the zone"), "");
                     }
-                    let expect = match *kind { "badkey" => "NOTAUTH", "ztype" => "FORMERR", _ => "" };
+                    let expect = match *kind { "badkey" | "badsig" | "expired" => "NOTAUTH", "ztype" => "FORMERR", _ => "" };
                     if res == "NOERROR" || res == "panic" || res == "no-response" || (!expect.is_empty() && res != expect) {
                         rec.fail(idx, format!("an UPDATE that must be rejected ({kind}) was answered {res}{}", if expect.is_empty() { String::new() } else { format!(", expected {expect}") }), "");
                     }
@@ -1007,6 +1065,7 @@ pub fn exec(line: &str, hist: &mut Hist, rec: &mut Recorder) {
             if let Some(tw) = hist.twin.as_ref() {
                 let _ = run_update(&hist.rt, tw, &p, &u);
             }
+            let full_before = before.rrs.clone();
             let (before, after) = if hist.dnssec { (without_dnssec(before), without_dnssec(after)) } else { (before, after) };
             let idx = if hist.dnssec {
                 rec.impl_only += 1;
@@ -1015,7 +1074,7 @@ pub fn exec(line: &str, hist: &mut Hist, rec: &mut Recorder) {
             } else {
                 rec.case(line.to_string(), format!("{stage} {res} {} 0 {}", after.serial, after.dump))
             };
-            let v = judge(&hist.origin, &before, &after, &p, &u, stage, &res);
+            let v = judge_with(&hist.origin, &before, &after, &p, &u, stage, &res, &full_before);
             rec.stat("op.upd");
             rec.stat(&format!("upd.{stage}.{res}"));
             rec.stat(&format!("upd.size.prereq{}.update{}", p.len().min(3), u.len().min(5)));
@@ -1035,7 +1094,12 @@ pub fn exec(line: &str, hist: &mut Hist, rec: &mut Recorder) {
             if v.changed || hist.changes > 0 {
                 rec.nontrivial(idx);
             }
+            if hist.nsec3 && res == "panic" {
+                hist.panicked = true;
+            }
             for (what, class) in v.fails {
+                // on an NSEC3 zone the panic — and what the half-finished `secure_zone()` leaves behind — is the known finding
+                let class = if class.is_empty() && hist.nsec3 && hist.panicked { CL_NSEC3.to_string() } else { class };
                 rec.stat(&format!("oracle.fail.{}", if class.is_empty() { "UNCLASSIFIED" } else { &class }));
                 rec.fail(idx, what, &class);
             }
@@ -1148,6 +1212,10 @@ fn rdata_for(rng: &mut Rng, t: u16) -> RData {
             let t = *rng.pick(&["ns1.example.com.", "ns2.example.com.", "ns.sub.example.com."]);
             RData::NS(NS(n(&cased(rng, t))))
         }
+        15 => {
+            let t = *rng.pick(&["a.example.com.", "b.example.com.", "mail.other.org."]);
+            RData::MX(hickory_proto::rr::rdata::MX::new(10, n(t)))
+        }
         T_CNAME => {
             let t = *rng.pick(&["a.example.com.", "b.example.com."]);
             RData::CNAME(CNAME(n(&cased(rng, t))))
@@ -1171,7 +1239,7 @@ fn pick_name(rng: &mut Rng) -> &'static str {
 }
 
 fn pick_type(rng: &mut Rng) -> u16 {
-    *rng.pick(&[T_A, T_A, T_TXT, T_NS, T_CNAME, T_AAAA, T_SOA])
+    *rng.pick(&[T_A, T_A, T_A, T_TXT, T_TXT, T_NS, T_NS, T_CNAME, T_CNAME, T_AAAA, T_AAAA, T_SOA, T_SOA, 15])
 }
 
 fn pick_ttl(rng: &mut Rng) -> u32 {
@@ -1220,6 +1288,15 @@ pub fn gen_zone(rng: &mut Rng) -> Vec<Record> {
         // CNAME chain, a CNAME loop, a CNAME out of the zone (what `chase_cnames` walks), DS at the delegation
         z.push(mk("alias2.example.com.", 300, RData::CNAME(CNAME(n("alias.example.com.")))));
         z.push(mk("loop.example.com.", 300, RData::CNAME(CNAME(n("loop.example.com.")))));
+        if rng.chance(1, 3) {
+            // longer than `chase_cnames` follows (MAX_CNAME_DEPTH = 8): loop → c1 → … → c9 → a
+            z.pop();
+            z.push(mk("loop.example.com.", 300, RData::CNAME(CNAME(n("c1.example.com.")))));
+            for i in 1..=9 {
+                let to = if i == 9 { "a.example.com.".to_string() } else { format!("c{}.example.com.", i + 1) };
+                z.push(mk(&format!("c{i}.example.com."), 300, RData::CNAME(CNAME(n(&to)))));
+            }
+        }
         if rng.chance(1, 2) {
             z.push(mk("www.example.com.", 300, RData::CNAME(CNAME(n("other.org.")))));
         }
@@ -1495,7 +1572,7 @@ fn gen_history(rng: &mut Rng) -> Vec<String> {
             } else if k < 13 {
                 m.replacen("upd ", "updc ok ", 1)
             } else if k < 15 {
-                m.replacen("upd ", &format!("updc {} ", *rng.pick(&["unsigned", "badkey", "ztype", "nozone"])), 1)
+                m.replacen("upd ", &format!("updc {} ", *rng.pick(&["unsigned", "badkey", "badsig", "expired", "ztype", "nozone", "noupdate", "secondary", "external"])), 1)
             } else {
                 m
             });
@@ -1523,7 +1600,8 @@ fn gen_history(rng: &mut Rng) -> Vec<String> {
 
 /// a history on a DNSSEC-enabled handler (only `upd` lines; no model side)
 fn gen_dnssec_history(rng: &mut Rng) -> Vec<String> {
-    let mut v = vec![gen_begin(rng, "begind")];
+    let kw = if rng.chance(1, 2) { "begind" } else { "begind3" };
+    let mut v = vec![gen_begin(rng, kw)];
     for _ in 0..rng.range(2, 6) {
         v.push(gen_msg(rng));
     }
@@ -1568,7 +1646,7 @@ fn gen_broken_zone_history(rng: &mut Rng) -> Vec<String> {
 pub fn run(o: &Opts, rec: &mut Recorder) {
     GIANTS.store(o.thorough(), std::sync::atomic::Ordering::Relaxed);
     rec.rule = "an `upd`/`pre` line that changed the zone or was judged after an earlier change of the same history (distinct by case text)".into();
-    let mut hist = Hist { rt: rt(), origin: Name::root(), h: None, cat: None, dnssec: false, twin: None, changes: 0 };
+    let mut hist = Hist { rt: rt(), origin: Name::root(), h: None, cat: None, dnssec: false, nsec3: false, panicked: false, initial: vec![], twin: None, changes: 0 };
     for l in &o.pre_lines {
         exec(l, &mut hist, rec);
     }
